@@ -59,6 +59,10 @@ func options() ggen.Options {
 		// consist of blanks, twins that differ from another path only by such blanks), runs of blanks inside a
 		// component, and commits without a message (the commit line then ends with the blank after the date)
 		TrailingBlankPaths: true, BlankRunPaths: true, EmptySubjects: true,
+		// widened after seed C14-r5: paths git prints in C notation between double quotes (bytes above 0x7e, double
+		// quote, backslash, tab, line break and other control characters): "as git prints them" is the quoted spelling,
+		// on the numstat line and on the summary lines alike
+		QuotedPaths: true,
 	}
 }
 
@@ -292,6 +296,9 @@ func checkReal(c RealCase) pbt.Verdict {
 	if err != nil {
 		ggen.HarnessFatal("case does not simulate: %v", err)
 	}
+	if knownAlike(sim) {
+		return pbt.Verdict{Skip: true}
+	}
 	base := cli.Scratch("c14-")
 	defer os.RemoveAll(base)
 	repo, err := ggen.Build(base, sim)
@@ -383,6 +390,30 @@ func confirm(sim *ggen.Sim) {
 	pbt.Count("failing_emulated_case_confirmed_with_git", 1)
 }
 
+// knownAlike: the case belongs to the input class of the known finding same_text_changes (two
+// changes of one commit that git prints with the same text). While that finding is listed, such a
+// case is kept out of the generated search (counted), also when it arises by coincidence from
+// other shapes; the pinned case of the finding is still judged when it is replayed.
+func knownAlike(sim *ggen.Sim) bool {
+	if pbt.InReplay() || !pbt.Excluded("same_text_changes") {
+		return false
+	}
+	for _, c := range sim.Log() {
+		if len(c.Parents) >= 2 {
+			continue
+		}
+		seen := map[string]bool{}
+		for _, e := range c.Entries {
+			if seen[e.Printed()] {
+				pbt.Count("cases_left_out_as_known_finding_same_text_changes", 1)
+				return true
+			}
+			seen[e.Printed()] = true
+		}
+	}
+	return false
+}
+
 func checkEmu(c EmuCase) pbt.Verdict {
 	sim, err := ggen.Simulate(c.History)
 	if err != nil {
@@ -390,6 +421,9 @@ func checkEmu(c EmuCase) pbt.Verdict {
 	}
 	if len(c.Hashes) != len(sim.Log()) {
 		ggen.HarnessFatal("case has %d hashes for %d commits", len(c.Hashes), len(sim.Log()))
+	}
+	if knownAlike(sim) {
+		return pbt.Verdict{Skip: true}
 	}
 	exp := ggen.Expect(sim, c.Hashes)
 	text := ggen.Emulate(sim, c.Hashes)
@@ -432,6 +466,9 @@ func checkSeq(c SeqCase) pbt.Verdict {
 		return side{sim, ggen.Expect(sim, e.Hashes), ggen.Emulate(sim, e.Hashes)}
 	}
 	a, b := mk(c.First), mk(c.Second)
+	if knownAlike(a.sim) || knownAlike(b.sim) {
+		return pbt.Verdict{Skip: true}
+	}
 	git.VerifResetGit()
 	fail := func(what, msg string, got []git.CommitMessage, s side) pbt.Verdict {
 		confirm(a.sim)
@@ -480,9 +517,10 @@ func checkSeq(c SeqCase) pbt.Verdict {
 
 func init() {
 	pbt.SetProperty("C14")
-	pbt.Describe("rapid-generated operation lists: 1-12 commits by 1-6 authors (names with spaces, digits, non-ASCII, inner punctuation such as dependabot[bot] or Jean-Luc O'Neil), up to 5 live files per branch plus, now and then, an import of 9-24 files in one commit; per commit 1-5 operations (add text/binary file, plain or executable, of 1-12 or of 100-1400 lines, modify = drop/insert lines and/or flip the executable bit, delete, rename: other name / other directory / to the root / one directory up / down / first or inner directory component replaced / directory put in front, unchanged, lightly edited or rewritten so that git shows delete+create); paths with blanks (also at the beginning of a component or of the whole path; since seed C14-r4 also at the END of a component or of the whole path, one or two of them: `notes `, `old /keep `, `g.txt  `, at both ends: ` x `, file names of one or two blanks and directory names of three blanks: ` `, `  `, `a/   /f.txt`, runs of two blanks inside a component: `two  blanks.md`, `d  ir`, and twins = a new path that differs from a path of the tree, possibly one touched by the same commit, only by blanks appended to one of its components: `f.txt` next to `f.txt `, `a/b/f.txt` next to `a /b/f.txt`; such names are also rename sources and targets and replaced directory components), nested directories, number-then-blank components, names that are a prefix or a suffix of another name (f.txt / f.txt.orig / xf.txt), re-creation of deleted paths; empty commits, a side branch that ends in a merge commit (clean by construction), in a squash commit (one parent, the side branch's net change as its diff, as after `git merge --squash`; the side commits stay unreachable) or is left unmerged; subjects from a token grammar (words, conventional prefixes with/without scope, [text], [hex], bare hex words, ->, =>, other dates, the commit's own date, the author's name, colons, quotes, non-ASCII) and, on commits of every kind (ordinary, empty, squash, side branch, first, last, true merge), the subjects git and the hosting services write: Merge branch 'b' [of url] [into c], Merge branches 'b' and 'c', Merge tag 't', Merge commit '<hex>', Merge pull request #n from user/b, Merge remote-tracking branch 'origin/b', Merge <hex> into <hex>, Merged in b (pull request #n), Merged PR n: text, and Revert \"s\", Reapply \"s\", Revert \"Revert \"s\"\", fixup! / squash! / amend! s, Squashed commit of the following:, Initial commit, WIP on b: <hex> s, index on b: <hex> s, Bump pkg from 1.2.3 to 1.2.4, Create / Update / Delete / Rename <file>, Release v1.2.3, s (#n), Cherry-pick <hex>: s, where s is the subject of an earlier commit of the history or plain words (a true merge otherwise carries Merge branch 'side' or a grammar subject; the subject never decides whether a commit is a merge: its parents do); now and then a commit of any kind has no message at all (git commit --allow-empty-message: %s is empty, the commit line ends with the blank after the date); author dates in four time zones. The operation list is simulated (file trees with globally unique lines, tree diff, git's rename pairing and similarity estimate, git's rename notation) which yields both the expected commit list and the emulated log text. 'cli' cases build the repository with real git (git commit with GIT_AUTHOR_*/GIT_COMMITTER_* fixed), validate simulation and emulator against it (git diff-tree --numstat -M per commit, rev-list, ls-tree, git log byte for byte), run the built `coca git` inside it and read coca_reporter/commits.json, and feed the real log text to BuildMessageByInput; 'emu' cases feed emulated log text to BuildMessageByInput, with abbreviated hashes of 7-16 or of 40 digits; 'seq' cases parse the emulated logs of two histories (which now and then carry the same hashes) as A, B, A in one process without the reset hook in between: every call must give its own log's commits, and a list handed out by an earlier call must still read the same after later calls. Expected: in log order one entry per reachable non-merge commit with at least one changed path, with hash, author, date, subject as printed, and the multiset of (path as printed by numstat, added, deleted, create/delete/\"\" mode), binary = 0/0. Non-trivial = at least 2 commits with changes and at least one of: rename, delete, binary file, path with a blank, subject with a special token (a merge-like or other tool-written subject on a non-merge commit counts as one); distinct = hash of the operation list. "+
-		"CHECKLIST AUDIT, on top of the above (the drawn operation list is re-spelled consistently afterwards, each family behind its own draw): (a) ~30 % of the cases: 1-3 path components are re-spelled wherever they occur, as directory or as file name, as text that resembles the log's own syntax (`a => b`, `{a => b}`, `{ => x}`, `=>`, `{`, `}`, `f (100%)`, `g (50%)`, `(87%)`, `mode 100644 f`, `create mode 100644 f.txt`, `delete mode 100755 x`, `rename a => b (100%)`, `mode change 100644 => 100755 m`, `create`, `mode`, `[abc1234] Ann Lee 2015-01-04 add`, `[deadbeef]`, `2015-01-04`, `- - bin`, `12`, `0`, `-`, `--`, `-1`), as other printable ASCII punctuation git prints unquoted ($ _ # @ + , ; ' & ! ~ % = : ( ) [ ] < > ^ * ? | and the back quote), as one-letter and dot names (`q`, `...`, `x.`, `.hidden`, `-rf`), as case variants / one character shorter or longer variants of pool names or of another component of the same history (`F.TXT` next to `f.txt`, `sub2`, `su`, `f.txt~`, `f.txt (100%)`, `{f.txt => f.txt}`), as one component of 247 bytes, or as 14 nested directory levels; (b) ~20 %: one or two authors get another name in all their commits: one character (`M`, `x`, a CJK letter), a run of two blanks / a tab / a no-break space inside, a bracketed hex word in front (`[abc1234] Bob`, `[bot]`), almost-dates (`v 2020-01`, `x 2020-1-15`, `Ann 2020-01-1 Lee`, `z 2020/01/15`, `Bob 2020`), case variants and extensions of another author of the history (`ann lee`, `Ann Lee Jr`), words of the log syntax (`create mode`, `mode 100644 x`, `1 2 f`, `100%`), 316 bytes; (c) ~20 %: tokens appended to one or two subjects (or taken as the subject of a commit without message): tab-separated numstat look-alikes (`1<TAB>2<TAB>f.txt`, `-<TAB>-<TAB>data.bin`), summary-line look-alikes (`create mode 100644 f.txt`, `rename a => b (100%)`, `mode change 100644 => 100755 x`), a commit-line look-alike, CR / FF / VT inside a word, and subjects that END with white space git does not strip (no-break space, U+3000, U+0085, U+2028, FF, VT; git strips blank, tab, CR, LF only); (d) ~2.5 %: one subject of 4097-9100 bytes, ~1 %: of 65537-70600 bytes (one log line longer than 64 KiB); (e) ~20 %: the renames of the history also flip the executable bit (git then prints ` mode change 100644 => 100755` WITHOUT a path after the rename line); (f) ~3 %: one commit imports 26-70 further files (31/32/33 and 63/64/65 on purpose), ~1.7 %: the last ordinary commit adds a text file of 10000-13000 or of 100000 lines (numstat figures of five and six digits), ~3 % of the emulated logs have up to 100 commits; (g) 'cli' only: in half of the cases a third of the commits carry a message body (`git commit -m subject -m body`; paragraphs that look like numstat, summary or commit lines, trailers; %s prints none of it), ~7 % of the histories are padded with 20-60 further one-file commits (logs of more than 16, 32, 64 commits by construction), ~25 % have a .mailmap file in the work tree (one or two lines `To <mapped@example.org> From <author@example.org>`, To also another author of the history, or one line with the address only, which maps every generated author): the expected author is then the name %aN prints, and the real `git log` under that mailmap is compared byte for byte with the emulator fed the mapped names before anything is judged; ~25 % give `coca git` further options that only print summaries (-b -t -a -o -m -f -s N, long and joined spellings), ~20 % start `coca git` in the first directory of the work tree instead of the top level (coca_reporter is then read there; git log prints the same text there, which is checked).",
-		"paths consist of printable ASCII characters (blanks anywhere in a component, also as its only characters) except the double quote and the backslash: those, control characters and bytes above 0x7e make git print the path C-quoted, and the statement leaves open whether the quoted or the unquoted spelling is 'the path'; no component is `.git*`, `.mailmap` or `coca_reporter`; files are regular files with mode 100644 or 100755 (no symlinks, no submodules: the quantifier lists neither)",
+	pbt.Describe("rapid-generated operation lists: 1-12 commits by 1-6 authors (names with spaces, digits, non-ASCII, inner punctuation such as dependabot[bot] or Jean-Luc O'Neil), up to 5 live files per branch plus, now and then, an import of 9-24 files in one commit; per commit 1-5 operations (add text/binary file, plain or executable, of 1-12 or of 100-1400 lines, modify = drop/insert lines and/or flip the executable bit, delete, rename: other name / other directory / to the root / one directory up / down / first or inner directory component replaced / directory put in front, unchanged, lightly edited or rewritten so that git shows delete+create); paths with blanks (also at the beginning of a component or of the whole path; since seed C14-r4 also at the END of a component or of the whole path, one or two of them: `notes `, `old /keep `, `g.txt  `, at both ends: ` x `, file names of one or two blanks and directory names of three blanks: ` `, `  `, `a/   /f.txt`, runs of two blanks inside a component: `two  blanks.md`, `d  ir`, and twins = a new path that differs from a path of the tree, possibly one touched by the same commit, only by blanks appended to one of its components: `f.txt` next to `f.txt `, `a/b/f.txt` next to `a /b/f.txt`; such names are also rename sources and targets and replaced directory components), nested directories, number-then-blank components, names that are a prefix or a suffix of another name (f.txt / f.txt.orig / xf.txt), re-creation of deleted paths; empty commits, a side branch that ends in a merge commit (clean by construction), in a squash commit (one parent, the side branch's net change as its diff, as after `git merge --squash`; the side commits stay unreachable) or is left unmerged; subjects from a token grammar (words, conventional prefixes with/without scope, [text], [hex], bare hex words, ->, =>, other dates, the commit's own date, the author's name, colons, quotes, non-ASCII) and, on commits of every kind (ordinary, empty, squash, side branch, first, last, true merge), the subjects git and the hosting services write: Merge branch 'b' [of url] [into c], Merge branches 'b' and 'c', Merge tag 't', Merge commit '<hex>', Merge pull request #n from user/b, Merge remote-tracking branch 'origin/b', Merge <hex> into <hex>, Merged in b (pull request #n), Merged PR n: text, and Revert \"s\", Reapply \"s\", Revert \"Revert \"s\"\", fixup! / squash! / amend! s, Squashed commit of the following:, Initial commit, WIP on b: <hex> s, index on b: <hex> s, Bump pkg from 1.2.3 to 1.2.4, Create / Update / Delete / Rename <file>, Release v1.2.3, s (#n), Cherry-pick <hex>: s, where s is the subject of an earlier commit of the history or plain words (a true merge otherwise carries Merge branch 'side' or a grammar subject; the subject never decides whether a commit is a merge: its parents do); now and then a commit of any kind has no message at all (git commit --allow-empty-message: %s is empty, the commit line ends with the blank after the date); author dates in four time zones. The operation list is simulated (file trees with globally unique lines, tree diff, git's rename pairing and similarity estimate, git's rename notation) which yields both the expected commit list and the emulated log text. 'cli' cases build the repository with real git (git commit with GIT_AUTHOR_*/GIT_COMMITTER_* fixed), validate simulation and emulator against it (git diff-tree --numstat -M per commit, rev-list, ls-tree, git log byte for byte), run the built `coca git` inside it and read coca_reporter/commits.json, and feed the real log text to BuildMessageByInput; 'emu' cases feed emulated log text to BuildMessageByInput, with abbreviated hashes of 7-16 or of 40 digits; 'seq' cases parse the emulated logs of two histories (which now and then carry the same hashes) as A, B, A in one process without the reset hook in between: every call must give its own log's commits, and a list handed out by an earlier call must still read the same after later calls. Expected: in log order one entry per reachable non-merge commit with at least one changed path, with hash, author, date, subject as printed, and the multiset of (path as printed by numstat, added, deleted, create/delete/\"\" mode), binary = 0/0. Non-trivial = at least 2 commits with changes and at least one of: rename, delete, binary file, path with a blank, path printed C-quoted, subject with a special token (a merge-like or other tool-written subject on a non-merge commit counts as one); distinct = hash of the operation list. "+
+		"CHECKLIST AUDIT, on top of the above (the drawn operation list is re-spelled consistently afterwards, each family behind its own draw): (a) ~30 % of the cases: 1-3 path components are re-spelled wherever they occur, as directory or as file name, as text that resembles the log's own syntax (`a => b`, `{a => b}`, `{ => x}`, `=>`, `{`, `}`, `f (100%)`, `g (50%)`, `(87%)`, `mode 100644 f`, `create mode 100644 f.txt`, `delete mode 100755 x`, `rename a => b (100%)`, `mode change 100644 => 100755 m`, `create`, `mode`, `[abc1234] Ann Lee 2015-01-04 add`, `[deadbeef]`, `2015-01-04`, `- - bin`, `12`, `0`, `-`, `--`, `-1`), as other printable ASCII punctuation git prints unquoted ($ _ # @ + , ; ' & ! ~ % = : ( ) [ ] < > ^ * ? | and the back quote), as one-letter and dot names (`q`, `...`, `x.`, `.hidden`, `-rf`), as case variants / one character shorter or longer variants of pool names or of another component of the same history (`F.TXT` next to `f.txt`, `sub2`, `su`, `f.txt~`, `f.txt (100%)`, `{f.txt => f.txt}`), as one component of 247 bytes, or as 14 nested directory levels; (b) ~20 %: one or two authors get another name in all their commits: one character (`M`, `x`, a CJK letter), a run of two blanks / a tab / a no-break space inside, a bracketed hex word in front (`[abc1234] Bob`, `[bot]`), almost-dates (`v 2020-01`, `x 2020-1-15`, `Ann 2020-01-1 Lee`, `z 2020/01/15`, `Bob 2020`), case variants and extensions of another author of the history (`ann lee`, `Ann Lee Jr`), words of the log syntax (`create mode`, `mode 100644 x`, `1 2 f`, `100%`), 316 bytes; (c) ~20 %: tokens appended to one or two subjects (or taken as the subject of a commit without message): tab-separated numstat look-alikes (`1<TAB>2<TAB>f.txt`, `-<TAB>-<TAB>data.bin`), summary-line look-alikes (`create mode 100644 f.txt`, `rename a => b (100%)`, `mode change 100644 => 100755 x`), a commit-line look-alike, CR / FF / VT inside a word, and subjects that END with white space git does not strip (no-break space, U+3000, U+0085, U+2028, FF, VT; git strips blank, tab, CR, LF only); (d) ~2.5 %: one subject of 4097-9100 bytes, ~1 %: of 65537-70600 bytes (one log line longer than 64 KiB); (e) ~20 %: the renames of the history also flip the executable bit (git then prints ` mode change 100644 => 100755` WITHOUT a path after the rename line); (f) ~3 %: one commit imports 26-70 further files (31/32/33 and 63/64/65 on purpose), ~1.7 %: the last ordinary commit adds a text file of 10000-13000 or of 100000 lines (numstat figures of five and six digits), ~3 % of the emulated logs have up to 100 commits; (g) 'cli' only: in half of the cases a third of the commits carry a message body (`git commit -m subject -m body`; paragraphs that look like numstat, summary or commit lines, trailers; %s prints none of it), ~7 % of the histories are padded with 20-60 further one-file commits (logs of more than 16, 32, 64 commits by construction), ~25 % have a .mailmap file in the work tree (one or two lines `To <mapped@example.org> From <author@example.org>`, To also another author of the history, or one line with the address only, which maps every generated author): the expected author is then the name %aN prints, and the real `git log` under that mailmap is compared byte for byte with the emulator fed the mapped names before anything is judged; ~25 % give `coca git` further options that only print summaries (-b -t -a -o -m -f -s N, long and joined spellings), ~20 % start `coca git` in the first directory of the work tree instead of the top level (coca_reporter is then read there; git log prints the same text there, which is checked). "+
+		"SEED C14-r5, on top of the above, in all three routes: paths git prints C-quoted. (h) one history in four draws its directories, file names and rename components also from pools of such names (`d\u00e4`, `a/s\u00fcb dir`, `\u6587\u6863/sub`, `tab<TAB>dir`, `q\"d`, `a/back\\dir`, `nl<LF>d/x`; `sp\u00e4t.txt`, `\u6587\u6863.md`, an emoji, `\u00e9.txt` next to `e<U+0301>.txt`, `say \"hi\".txt`, `\"all\"`, `back\\slash.txt`, the literal text `\\303\\244.txt`, `a\\tb` next to `a<TAB>b`, names with LF, CR, BEL, ESC, DEL inside, a name of one two-byte character), so that they are created, modified, chmod-ed, deleted, re-created, binary, twins with blanks appended, and renamed in every direction: a rename with a quoted path on one side or on both is printed `old => new` with full paths (no braces, also inside a common directory), next to brace renames of plain paths in the same log; (i) ~10 % of all cases re-spell one or two components (directory or file name, wherever they occur) as a name that needs the quoting: look-alikes of the log syntax (`\u00e4 => b`, `{\u00e4 => b}`, `a => \"b\"`, `create mode 100644 \u00e4.txt`, `[abc1234] Zo\u00eb 2015-01-04 add`, `1<TAB>2<TAB>f.txt`, `x<LF>[abc1234] Bob 2015-01-04 fake`, `x<LF>1<TAB>0<TAB>f.txt`), names made of quotes, backslashes or one control character only (`\"`, `\"\"`, `\\`, `\\\\`, `\\\"`, LF, TAB, CR), the text of the notation as a name (`\"f.txt\"` next to `f.txt`, `sp\\303\\244t.txt`, `\\n`, `\\001`, `C:\\dir`), blanks at the edges inside the quotes, the bytes at the borders of the quoted ranges (0x01, 0x1f, 0x7f next to `~`, U+0080, U+00FF, U+07FF, U+0800, U+FFFF, U+10000, U+10FFFF, a lone combining accent, no-break space, U+2028), other scripts and a ZWJ emoji sequence, a component of 247 bytes that is printed with 885, and variants of another component of the same history (s + `\u00e4`, `\u00e9` + s, s + quote / TAB / LF / backslash / no-break space, `\"s\"`, the printed form of s taken as a name, a combining diaeresis inside). The emulator reproduces git's quoting byte for byte; as before it is compared with real git (numstat of diff-tree, ls-tree, the whole log text) at start-up, in every 'cli' case and for every failing emulated case. (j) two changes of one commit that git prints with the same text (found by the thorough tier as a coincidence of (a), now made by construction in ~4 % of the emulated and ~12 % of the 'cli' cases, feature switch same_text_changes): the commit of a rename whose text is unquoted (`{a => b}/f.txt`, `a/{sub => }/f.txt`, `f.txt => g.txt`) also creates the file whose path is that text, or modifies or deletes it after an earlier commit of the same lane has created it; the log then has two numstat lines with one text and ` rename T (n%)` next to ` create mode 100644 T` / ` delete mode 100644 T`, in either order; expected are both changes, the create/delete mode on the one that is not the rename (git prints the summary lines in the order of the numstat lines).",
+		"a path is any sequence of components a Linux file system and git accept that is valid UTF-8 (a case is stored as JSON, so single bytes above 0x7f that form no UTF-8 sequence are not visited) and holds no NUL byte: printable ASCII with blanks anywhere in a component, also as its only characters, and - since seed C14-r5 - the double quote, the backslash, control characters (tab, line break, CR, BEL, ESC, DEL, ..) and characters outside ASCII. git prints a path with one of the latter in C notation between double quotes (core.quotepath is left at its default, true), on the numstat line and on the summary lines alike; the statement asks for the path as git prints it, so the quoted spelling is the expected value (`\"sp\\303\\244t.txt\"`), and for a rename that involves such a path the text `old => new` with each side quoted where it needs it, which is what git prints instead of the brace notation. No component is `.git*`, `git~*`, `.mailmap` or `coca_reporter`; files are regular files with mode 100644 or 100755 (no symlinks, no submodules: the quantifier lists neither)",
 		"author names contain no date-shaped text (\\d{4}-\\d{2}-\\d{2} anywhere inside: the commit line could then be read in two ways); no < > or line break and none of . , : ; \" ' \\ or white space at the ends (git removes those); subjects are one paragraph of one line, without blank, tab, CR or LF at the ends (git strips them from %s), either empty or beginning with a character other than blank and tab; tab, CR, FF, VT inside and any other white space anywhere are kept by git and generated; a message body is a separate paragraph and exists only next to a non-empty subject",
 		"a .mailmap line names the address all generated authors share; names in it compare without regard to ASCII case, as in git; the repository configuration is git's default apart from the harness settings (no core.abbrev, core.quotepath, log.* or color settings)",
 		"every pairing of a deleted with an added file is unambiguous by construction (all lines globally unique, added files never empty), so git's rename detection has exactly one possible result, which the simulation reproduces with git's span-hash similarity estimate; this is checked against real git in every 'cli' case, in a start-up self-test, and for every failing 'emu' case before it is reported",
